@@ -29,6 +29,7 @@ func main() {
 	objsFile := flag.String("objs", "", "run the objects of this file")
 	hseq := flag.Int("hseq", 0, "number of batch sequences driven through the REAL eventHandlerImpl (instead of -n scenarios)")
 	hb := flag.Int("hb", 5, "maximum number of batches per sequence")
+	tlsN := flag.Int("tls", 0, "number of scenarios of the TLS layer of the pipeline model (lines carry \"flat\" and \"secrets\")")
 	frag := flag.Int("frag", 0, "number of scenarios inside the Pipeline fragment (instead of -n scenarios); lines carry \"flat\"")
 	mkcorpus := flag.String("mkcorpus", "", "write the hand-minimised corpus scenarios into this directory")
 	flag.Parse()
@@ -75,6 +76,33 @@ func main() {
 	// rng.New(S+1) is rng.New(S) advanced by one draw, so consecutive seeds would replay each other's scenarios shifted
 	// by one; derive the stream from a mixed value instead.
 	r := rng.New(rng.New(*seed).U64() ^ 0xC07)
+	if *tlsN > 0 {
+		// TLS fragment stream: scenarios of Model/PipelineTls.lean (HTTPS listeners, Secrets, port conflicts); lines carry "flat" + "secrets"
+		fr := rng.New(rng.New(*seed).U64() ^ 0x7150)
+		for i := 0; i < *tlsN; i++ {
+			s := c07.GenerateFragmentTLS(fr.Fork())
+			if *only >= 0 && i != *only {
+				continue
+			}
+			if *dump {
+				w.Write(p.EncodeObjects(s.Objs))
+				w.WriteByte('\n')
+				continue
+			}
+			fails := []bool{false}
+			if i%5 == 0 {
+				fails = append(fails, true)
+			}
+			for _, fail := range fails {
+				suffix := "ok"
+				if fail {
+					suffix = "err"
+				}
+				emit(c07.RunFragmentTLS(fmt.Sprintf("t%d-%d-%s", *seed, i, suffix), s, fail))
+			}
+		}
+		return
+	}
 	if *frag > 0 {
 		// fragment stream: scenarios inside the fragment of Model/Pipeline.lean, each line carries the flat scenario
 		fr := rng.New(rng.New(*seed).U64() ^ 0xF4A6)
